@@ -41,9 +41,12 @@ type GroupResult struct {
 	Stderr   string   `json:"stderr"`
 	// filled by the driver
 	CompileErr string `json:"compile_err"`
+	InitPanic  string `json:"init_panic"` // the generated package panics while it registers itself (at program start)
 }
 
-func (g *GroupResult) OK() bool { return g.Error == "" && g.Crash == "" && g.CompileErr == "" }
+func (g *GroupResult) OK() bool {
+	return g.Error == "" && g.Crash == "" && g.CompileErr == "" && g.InitPanic == ""
+}
 func (g *GroupResult) HasTag(t string) bool {
 	for _, x := range g.Tags {
 		if x == t || strings.HasPrefix(x, t+":") {
@@ -181,26 +184,64 @@ func NewScratch(probes bool, extra string) (*Scratch, error) {
 		}
 		imports = append(imports, g.GoPkgs...)
 	}
-	sort.Strings(imports)
-	var sb strings.Builder
-	sb.WriteString("package main\n\nimport (\n")
-	seen := map[string]bool{}
-	for _, p := range imports {
-		if !seen[p] {
-			seen[p] = true
-			fmt.Fprintf(&sb, "\t_ %q\n", p)
+	// link everything into the worker and start it once; a generated package that panics while
+	// registering itself (init) is attributed to its group, left out, and the worker is rebuilt
+	var out string
+	for attempt := 0; ; attempt++ {
+		sort.Strings(imports)
+		var sb strings.Builder
+		sb.WriteString("package main\n\nimport (\n")
+		seen := map[string]bool{}
+		for _, p := range imports {
+			if !seen[p] {
+				seen[p] = true
+				fmt.Fprintf(&sb, "\t_ %q\n", p)
+			}
 		}
-	}
-	sb.WriteString(")\n")
-	if err := os.WriteFile(filepath.Join(s.Repo, "zzverif", "cmd", "h", "imports_gen.go"), []byte(sb.String()), 0o644); err != nil {
-		return s, err
-	}
-	if out, err := run(s.Repo, goEnv(), 15*time.Minute, "go", "build", "-tags", "verif", "-o", s.H, "./zzverif/cmd/h"); err != nil {
-		return s, fmt.Errorf("build harness: %v\n%s", err, out)
-	}
-	out, err := run(s.Repo, goEnv(), time.Minute, s.H, "types")
-	if err != nil {
-		return s, fmt.Errorf("h types: %v\n%s", err, out)
+		sb.WriteString(")\n")
+		if err := os.WriteFile(filepath.Join(s.Repo, "zzverif", "cmd", "h", "imports_gen.go"), []byte(sb.String()), 0o644); err != nil {
+			return s, err
+		}
+		if o, err := run(s.Repo, goEnv(), 15*time.Minute, "go", "build", "-tags", "verif", "-o", s.H, "./zzverif/cmd/h"); err != nil {
+			return s, fmt.Errorf("build harness: %v\n%s", err, o)
+		}
+		var err error
+		out, err = run(s.Repo, goEnv(), time.Minute, s.H, "types")
+		if err == nil {
+			break
+		}
+		culprit := -1
+		if strings.Contains(out, "panic:") && attempt < 6 {
+			for i := range s.Groups {
+				g := &s.Groups[i]
+				if !g.OK() {
+					continue
+				}
+				for _, p := range g.GoPkgs {
+					if strings.Contains(out, p+".") || strings.Contains(out, strings.TrimPrefix(p, "github.com/cosmos/cosmos-proto/")+"/") {
+						culprit = i
+					}
+				}
+			}
+		}
+		if culprit < 0 {
+			return s, fmt.Errorf("h types: %v\n%s", err, out)
+		}
+		g := &s.Groups[culprit]
+		g.InitPanic = trunc(out, 3000)
+		var keep []string
+		for _, p := range imports {
+			drop := false
+			for _, q := range g.GoPkgs {
+				if p == q {
+					drop = true
+				}
+			}
+			if !drop {
+				keep = append(keep, p)
+			}
+		}
+		imports = keep
 	}
 	if err := json.Unmarshal([]byte(out), &s.Types); err != nil {
 		return s, fmt.Errorf("h types: %v", err)
